@@ -9,6 +9,7 @@ set -u
 export GOFLAGS=-mod=mod GOPROXY=off GOSUMDB=off GOTOOLCHAIN=local
 prop="$1"; src="$2"; id="$3"; tier="${4:-quick}"
 VERIF=/verif
+RACE=""; [ "$prop" = "C12" ] && RACE="-race"
 W="$(mktemp -d /tmp/mut-eval-XXXXXX)"; rmdir "$W"
 out="$VERIF/seeded/$id"
 cleanup() { git -C /repo worktree remove --force "$W" >/dev/null 2>&1; rm -rf "$W"; }
@@ -21,7 +22,7 @@ git -C /repo worktree add -q --detach "$W" HEAD || { echo "EVAL-ERROR worktree";
 cp "$src/demo_test.go" "$W/zz_demo_test.go"
 tests="$(grep -oE '^func (Test[A-Za-z0-9_]+)' "$W/zz_demo_test.go" | awk '{print $2}' | paste -sd'|')"
 [ -n "$tests" ] || { echo "EVAL-ERROR no test function in demo"; exit 2; }
-(cd "$W" && go test -count=1 -run "^($tests)\$" . >"$W/.demo_pristine.log" 2>&1); demo_pristine=$?
+(cd "$W" && go test $RACE -count=1 -run "^($tests)\$" . >"$W/.demo_pristine.log" 2>&1); demo_pristine=$?
 rm "$W/zz_demo_test.go"
 
 # the change: applies, compiles, suite passes
@@ -31,7 +32,7 @@ fi
 (cd "$W" && go build ./... >"$W/.build.log" 2>&1) || { echo "EVAL-REJECT $id: does not compile"; exit 3; }
 (cd "$W" && go test -count=1 ./... >"$W/.suite.log" 2>&1); suite=$?
 cp "$src/demo_test.go" "$W/zz_demo_test.go"
-(cd "$W" && go test -count=1 -run "^($tests)\$" . >"$W/.demo_mut.log" 2>&1); demo_mut=$?
+(cd "$W" && go test $RACE -count=1 -run "^($tests)\$" . >"$W/.demo_mut.log" 2>&1); demo_mut=$?
 rm "$W/zz_demo_test.go"
 
 echo "$id: demo on pristine exit=$demo_pristine (want 0); suite with change exit=$suite (want 0); demo with change exit=$demo_mut (want !=0)"
